@@ -4,8 +4,8 @@ a scratch COPY of one module (harness/graphlib.py:patched), against which the th
     /venv/bin/python harness/mutations_graph.py [name …]
 
 Prints, per mutation, which property check reports it and how (violation keys / disagreements).  /repo is never
-edited.  The known findings are neutralised first (their minimal fixes are applied together with the mutation), so
-that what is reported is due to the mutation."""
+edited.  Violations keyed by the two recorded findings (graphlib.KNOWN_KEYS) are not counted: what is reported is
+due to the mutation.  Every case runs through `run_attributed` exactly as in a real check."""
 import os
 import sys
 import time
@@ -20,6 +20,22 @@ import graphlib as gl  # noqa: E402
 from props import c06, c07, c09  # noqa: E402
 
 MUTATIONS = {
+    # the reverts of the two defects this family found and /repo repaired (407f135, 9333c86)
+    "R1-revert-407f135-shadowed-test_object": ("graph", [(
+        "            for node_object in test_node.objects:\n"
+        "                object_parents = self.get_nodes(\n"
+        "                    \"name\",\n"
+        "                    rf\"(\\.|^){node_object.component_form}(\\.|$)\",",
+        "            for test_object in test_node.objects:\n"
+        "                object_parents = self.get_nodes(\n"
+        "                    \"name\",\n"
+        "                    rf\"(\\.|^){test_object.component_form}(\\.|$)\",")]),
+    "R2-revert-9333c86-first-worker-restricts-vm-objects": ("graph", [(
+        "                known_ids = {o.id for o in graph.objects}\n"
+        "                graph.new_objects(\n"
+        "                    [s for s in stubs if s.key == \"nets\" or s.id not in known_ids]\n"
+        "                )",
+        "                graph.new_objects([s for s in stubs if s.key == \"nets\"])")]),
     "M1-clone-parent-swapped-comparison": ("graph", [(
         "                            parent if clone_setup == parent_source else clone_setup",
         "                            parent if clone_setup != parent_source else clone_setup")]),
@@ -70,19 +86,17 @@ def run(name, seeds=(11,), n_suites=10):
         ctx = vlib.Ctx(prop, "quick", seeds[0])
         cases = c06.gen_cases(ctx.rng, n_suites, 1, "small", lazy_share=0.4 if prop != "C09" else 0.0)
         try:
-            with gl.patched("fix-shadowed-test_object", "fix-objects-of-later-workers", extra={mod: reps}):
+            with gl.patched(extra={mod: reps}):
                 for case in cases:
                     if prop == "C07":
                         case.pop("order", None)
                     if prop == "C09" and len(case["nets"]) == 1:
                         case["nets"] = case["nets"] + [n for n in gl.all_net_names(case["suite"]) if n not in case["nets"]][:1]
                     try:
-                        if prop == "C06":
-                            module.run_cases(ctx, [case])
-                        elif prop == "C07":
-                            module.run_cases(ctx, [case])
+                        if prop == "C09":
+                            gl.run_attributed(ctx, case, lambda c, k: module.run_cases(c, [k], 2))
                         else:
-                            module.run_cases(ctx, [case], 2)
+                            gl.run_attributed(ctx, case, lambda c, k: module.run_cases(c, [k]))
                     except Exception as e:  # noqa
                         ctx.notes.append(f"harness raised {type(e).__name__}: {e}"[:200])
                     if time.time() - t0 > 400:
@@ -91,7 +105,7 @@ def run(name, seeds=(11,), n_suites=10):
             gl.cleanup()
         keys = {}
         for v in ctx.violations:
-            if v["key"] != "double-clone":
+            if v["key"] not in gl.KNOWN_KEYS:
                 keys[v["key"]] = keys.get(v["key"], 0) + 1
         res[prop] = {"violations": keys, "disagreements": len(ctx.disagreements), "cases": ctx.evaluations,
                      "notes": ctx.notes[:2]}
